@@ -1,11 +1,114 @@
 (* C13 — property theorems. Only statements closed by `exact <lemma>`, Print Assumptions, and
    non-vacuity examples. *)
-From Coq Require Import List Bool Arith NArith ZArith.
+From Coq Require Import List Bool Arith NArith ZArith Lia Sorting.Sorted.
 Import ListNotations.
-From C13 Require Import Model ProofsGlob.
+From C13 Require Import Model ProofsGlob ProofsKmp ProofsWild ProofsSearch.
 
 (* The executable specification [glob] (what every case is judged against) is the declarative
    glob: text terms stand for themselves, every '*' for an arbitrary string. *)
 Theorem C13_glob_spec_meaning : forall ts t, glob ts t = true <-> Matches ts t.
 Proof. exact glob_matches. Qed.
 Print Assumptions C13_glob_spec_meaning.
+
+(* findSubstring (prefix function + matcher) returns the end of the LEFTMOST occurrence of a
+   non-empty pattern, -1 iff there is none, and the model's fuel never runs out. *)
+Theorem C13_kmp_leftmost : forall s p, p <> [] ->
+  match find_substring s p with
+  | KEnd e => EndsAt p s e /\ forall e', EndsAt p s e' -> e <= e'
+  | KNone => forall e', ~ EndsAt p s e'
+  | KFuel => False
+  end.
+Proof. exact find_substring_leftmost. Qed.
+Print Assumptions C13_kmp_leftmost.
+
+(* For every term list the parsers can build (any number of '*', adjacent '*' allowed) and every
+   token: the searcher's check (literal: bytes.Equal; wildcard: prefix, suffix with the length
+   guard against overlap, ordered middles by greedy KMP) decides exactly the glob. *)
+Theorem C13_wildcard_is_glob : forall ts v, wf ts = true ->
+  match is_literal ts with
+  | Some s => lit_check false s v = glob ts v
+  | None => wild_check false (new_wildcard ts) v = Some (glob ts v)
+  end.
+Proof. exact check_is_glob. Qed.
+Print Assumptions C13_wildcard_is_glob.
+
+(* The narrowed wildcard check (prefix comparison skipped) is still the glob on every token that
+   carries the prefix — the only tokens the narrowed range contains. *)
+Theorem C13_wildcard_narrowed_is_glob : forall ts v, wf ts = true -> is_literal ts = None ->
+  (exists r, v = w_prefix (new_wildcard ts) ++ r) ->
+  wild_check true (new_wildcard ts) v = Some (glob ts v).
+Proof. intros ts v W L H. exact (wild_check_glob true ts v W L (fun _ => H)). Qed.
+Print Assumptions C13_wildcard_narrowed_is_glob.
+
+(* Range filters: numeric comparison iff every given end is a finite number (tokens that are not
+   numbers then never match), byte-order comparison otherwise; open/closed/unbounded ends. The
+   oracle [parse] is any function whose keys are bounded like finite float64 values. *)
+Theorem C13_range_semantics : forall parse : bytes -> option Z,
+  (forall s k, parse s = Some k -> (- maxkey <= k <= maxkey)%Z) ->
+  forall r v, range_check parse r v = range_spec parse r v.
+Proof. exact range_check_spec. Qed.
+Print Assumptions C13_range_semantics.
+
+(* Unordered provider (active fraction): Search returns exactly the TIDs of the tokens the
+   glob / interval semantics accepts, in order. *)
+Theorem C13_search_is_scan : forall parse : bytes -> option Z,
+  (forall s k, parse s = Some k -> (- maxkey <= k <= maxkey)%Z) ->
+  forall first dict q, wfq q ->
+  search parse false first dict q = Some (spec_scan (spec_match parse q) first dict).
+Proof. exact search_unordered. Qed.
+Print Assumptions C13_search_is_scan.
+
+(* Ordered provider (sorted duplicate-free dictionary): binary-search narrowing (literal: at most
+   one TID, compared by length only; wildcard: the block of tokens sharing the prefix) returns
+   the same TIDs as scanning every token. *)
+Theorem C13_narrow_equiv : forall parse : bytes -> option Z,
+  (forall s k, parse s = Some k -> (- maxkey <= k <= maxkey)%Z) ->
+  forall first dict q, wfq q -> StronglySorted lt_bytes dict ->
+  search parse true first dict q = search parse false first dict q /\
+  search parse true first dict q = Some (spec_scan (spec_match parse q) first dict).
+Proof. exact narrow_equiv. Qed.
+Print Assumptions C13_narrow_equiv.
+
+(* ---------------------------------------------------------------- non-vacuity *)
+
+Definition a := 97%N.
+Definition b := 98%N.
+
+(* 'ab*ba' is well formed, is not a literal, and does NOT match 'aba' (prefix and suffix would
+   overlap) but matches 'abba' and 'abaaba' *)
+Example C13_overlap_guard :
+  let ts := [TText [a; b]; TStar; TText [b; a]] in
+  wf ts = true /\ is_literal ts = None /\
+  wild_check false (new_wildcard ts) [a; b; a] = Some false /\ glob ts [a; b; a] = false /\
+  wild_check false (new_wildcard ts) [a; b; b; a] = Some true /\
+  wild_check false (new_wildcard ts) [a; b; a; a; b; a] = Some true.
+Proof. vm_compute. repeat split. Qed.
+
+(* middles, adjacent wildcards, an occurrence that must be taken leftmost *)
+Example C13_middles :
+  let ts := [TStar; TText [a; b]; TStar; TStar; TText [b; a]; TStar] in
+  wf ts = true /\ wild_check false (new_wildcard ts) [a; b; a] = Some false /\
+  wild_check false (new_wildcard ts) [b; a; b; b; a; a] = Some true /\
+  find_substring [b; a; b; a; b] [a; b] = KEnd 3.
+Proof. vm_compute. repeat split. Qed.
+
+(* a sorted dictionary, the oracle hypothesis, and a narrowed search that finds something *)
+Example C13_sorted_dict_nonvacuous :
+  let dict := [[]; [a]; [a; a]; [a; b]; [a; b; a]; [b]] in
+  StronglySorted lt_bytes dict /\
+  search (lookup []) true 5 dict (QLit [TText [a]; TStar; TText [a]]) = Some [7; 9]%Z /\
+  search (lookup []) true 5 dict (QLit [TText [a; b]]) = Some [8]%Z.
+Proof.
+  split; [|vm_compute; split; reflexivity].
+  repeat (constructor; [|repeat constructor; reflexivity]). constructor.
+Qed.
+
+Example C13_oracle_hypothesis_witness :
+  let keys := [([49%N], 4607182418800017408%Z); ([50%N], 4611686018427387904%Z)] in
+  (forall s k, lookup keys s = Some k -> (- maxkey <= k <= maxkey)%Z) /\
+  range_check (lookup keys) {| r_from := Some [49%N]; r_to := None; r_incf := false; r_inct := true |} [50%N] = true /\
+  range_check (lookup keys) {| r_from := None; r_to := None; r_incf := true; r_inct := true |} [a] = false.
+Proof.
+  split; [|vm_compute; split; reflexivity].
+  apply lookup_bounded. repeat constructor; simpl; unfold maxkey; lia.
+Qed.
